@@ -8,6 +8,10 @@
 //	{"k":"same","l":V}          every binary operator on (v,v) with the SAME Go object on both sides
 //	{"k":"uns","l":V}           the three unary operators
 //	{"k":"ctxs","l":V}          the ten boolean contexts
+//	{"k":"spair","l":V,"r":V}   like "pair", but every operator is evaluated by a SCRIPT statement
+//	                            `c03_emit($l OP $r);` (lexer, parser, node/binary.go dispatch) with the
+//	                            operands written as literals; uncaught throw / Go panic observed at top level
+//	{"k":"stry","l":V,"r":V}    the same statements inside try { } catch (\Throwable $e) { c03_caught(); }
 //	{"k":"iface"}               the interface-implementation table (reflection)
 //
 // pair/same/uns answers carry "orc": the graphs of strconv.ParseFloat, strconv.FormatFloat
@@ -36,6 +40,7 @@ import (
 
 	"github.com/php-any/origami/data"
 	"github.com/php-any/origami/node"
+	"github.com/php-any/origami/parser"
 	"github.com/php-any/origami/runtime"
 )
 
@@ -129,6 +134,135 @@ func oracleFor(vs ...*V) *Oracle {
 		}
 	}
 	return o
+}
+
+// ---- script-level evaluation
+var (
+	sparser  *parser.Parser
+	emitted  []data.Value
+	caught   int
+	uncaught int
+)
+
+type emitFn struct{}
+
+func (emitFn) Call(c data.Context) (data.GetValue, data.Control) {
+	v, _ := c.GetIndexValue(0)
+	emitted = append(emitted, v)
+	return nil, nil
+}
+func (emitFn) GetName() string { return "c03_emit" }
+func (emitFn) GetParams() []data.GetValue {
+	return []data.GetValue{node.NewParameter(nil, "v", 0, nil, nil)}
+}
+func (emitFn) GetVariables() []data.Variable {
+	return []data.Variable{node.NewVariable(nil, "v", 0, data.NewBaseType("mixed"))}
+}
+
+type caughtFn struct{}
+
+func (caughtFn) Call(c data.Context) (data.GetValue, data.Control) { caught++; return nil, nil }
+func (caughtFn) GetName() string                                   { return "c03_caught" }
+func (caughtFn) GetParams() []data.GetValue                        { return nil }
+func (caughtFn) GetVariables() []data.Variable                     { return nil }
+
+var opSym = map[string]string{"add": "+", "sub": "-", "mul": "*", "quo": "/", "rem": "%", "pow": "**", "band": "&",
+	"bor": "|", "bxor": "^", "shl": "<<", "shr": ">>", "eq": "==", "ne": "!=", "seq": "===", "sne": "!==", "lt": "<",
+	"le": "<=", "gt": ">", "ge": ">=", "cmp": "<=>", "land": "&&", "lor": "||", "dot": "."}
+
+// literal source text of an operand (only values that have one)
+func lit(v *V) (string, bool) {
+	switch v.K {
+	case "null":
+		return "null", true
+	case "bool":
+		if v.B {
+			return "true", true
+		}
+		return "false", true
+	case "int":
+		if v.I == "-9223372036854775808" {
+			return "", false
+		}
+		return v.I, true
+	case "float":
+		b, _ := strconv.ParseUint(v.Bits, 10, 64)
+		f := math.Float64frombits(b)
+		if math.IsNaN(f) || math.IsInf(f, 0) || (f == 0 && math.Signbit(f)) {
+			return "", false
+		}
+		t := strconv.FormatFloat(f, 'f', -1, 64)
+		if len(t) > 20 {
+			return "", false
+		}
+		if !strings.Contains(t, ".") {
+			t += ".0"
+		}
+		return t, true
+	case "str":
+		if strings.ContainsAny(v.S, "'\\$\n\t{") {
+			return "", false
+		}
+		return "'" + v.S + "'", true
+	case "arr":
+		return "[" + strings.Join(v.Items, ", ") + "]", true
+	case "cls":
+		return "new C03P()", true
+	}
+	return "", false
+}
+
+func runStmt(src string) (o Obs) {
+	emitted = nil
+	caught = 0
+	uncaught = 0
+	defer func() {
+		if r := recover(); r != nil {
+			o = Obs{Out: "panic", Msg: fmt.Sprint(r)}
+		}
+	}()
+	prog, acl := sparser.ParseString(src, "c03s.zy")
+	if acl != nil {
+		return Obs{Out: "parse", Msg: acl.AsString()}
+	}
+	c := vm.CreateContext(sparser.GetVariables())
+	_, ctl := prog.GetValue(c)
+	if ctl != nil {
+		if _, ok := ctl.(*data.ThrowValue); ok {
+			return Obs{Out: "throw", Msg: ctl.AsString()}
+		}
+		return Obs{Out: "control", Msg: fmt.Sprintf("%T", ctl)}
+	}
+	if uncaught > 0 {
+		return Obs{Out: "throw", Msg: "uncaught (ThrowControl)"}
+	}
+	if caught > 0 {
+		return Obs{Out: "throw", Msg: "caught"}
+	}
+	if len(emitted) != 1 {
+		return Obs{Out: "panic", Msg: fmt.Sprintf("emitted %d values", len(emitted))}
+	}
+	if emitted[0] == nil {
+		return Obs{Out: "nil"}
+	}
+	return Obs{Out: "val", V: unmk(emitted[0])}
+}
+
+func scriptOps(l, r *V, inTry bool) []Obs {
+	ls, ok1 := lit(l)
+	rs, ok2 := lit(r)
+	if !ok1 || !ok2 {
+		return nil
+	}
+	var res []Obs
+	for _, op := range binOps {
+		stmt := "c03_emit($l " + opSym[op] + " $r);"
+		if inTry {
+			stmt = "try { " + stmt + " } catch (\\Throwable $e) { c03_caught(); }"
+		}
+		res = append(res, runStmt("$l = "+ls+"; $r = "+rs+";\n"+stmt+"\n"))
+	}
+	return res
 }
 
 func safe(f func() Obs) (o Obs) {
@@ -443,6 +577,14 @@ func runCase(c Case) (o Obs) {
 			res.RL = append(res.RL, safe(func() Obs { return finish(binNode(op, mk(c.R), mk(c.L)).GetValue(ctx)) }))
 		}
 		return res
+	case "spair", "stry":
+		res := Obs{Out: "pair", Orc: oracleFor(c.L, c.R)}
+		res.LR = scriptOps(c.L, c.R, c.K == "stry")
+		res.RL = scriptOps(c.R, c.L, c.K == "stry")
+		if res.LR == nil {
+			return Obs{Out: "skip"}
+		}
+		return res
 	case "same":
 		res := Obs{Out: "same", Orc: oracleFor(c.L)}
 		for _, op := range binOps {
@@ -487,6 +629,17 @@ func main() {
 		os.Exit(2)
 	}
 	clsStmt = cs
+	sparser = ps
+	// an uncaught throw must not exit the process: record it
+	vm.SetThrowControl(func(acl data.Control) { uncaught++ })
+	if ctl := vm.AddFunc(emitFn{}); ctl != nil {
+		fmt.Fprintln(os.Stderr, "setup: c03_emit:", ctl.AsString())
+		os.Exit(2)
+	}
+	if ctl := vm.AddFunc(caughtFn{}); ctl != nil {
+		fmt.Fprintln(os.Stderr, "setup: c03_caught:", ctl.AsString())
+		os.Exit(2)
+	}
 	w := json.NewEncoder(os.Stdout)
 	vrun.Lines(func(line string) {
 		if strings.TrimSpace(line) == "" {
